@@ -337,10 +337,73 @@ func (c *seeCtx) of1(v ssa.Value) *Expr {
 	return &Expr{Op: OpUnknown, Name: fmt.Sprintf("%T", v)}
 }
 
+var boundSites = map[*ssa.Function][]*ssa.MakeClosure{}
+
+// boundWrapperSites finds the creation sites of a bound-method wrapper
+// (`x.m` used as a value) in the package of the method's receiver type.
+func boundWrapperSites(fn *ssa.Function) []*ssa.MakeClosure {
+	if sites, ok := boundSites[fn]; ok {
+		return sites
+	}
+	boundSites[fn] = nil
+	if len(fn.FreeVars) != 1 || fn.Prog == nil {
+		return nil
+	}
+	t := fn.FreeVars[0].Type()
+	if p, ok := t.(*types.Pointer); ok {
+		t = p.Elem()
+	}
+	named, ok := t.(*types.Named)
+	if !ok || named.Obj().Pkg() == nil {
+		return nil
+	}
+	pkg := fn.Prog.Package(named.Obj().Pkg())
+	if pkg == nil {
+		return nil
+	}
+	var sites []*ssa.MakeClosure
+	var visit func(g *ssa.Function)
+	visit = func(g *ssa.Function) {
+		for _, b := range g.Blocks {
+			for _, in := range b.Instrs {
+				if mc, ok := in.(*ssa.MakeClosure); ok && mc.Fn == fn {
+					sites = append(sites, mc)
+				}
+			}
+		}
+		for _, a := range g.AnonFuncs {
+			visit(a)
+		}
+	}
+	for _, m := range pkg.Members {
+		switch m := m.(type) {
+		case *ssa.Function:
+			visit(m)
+		case *ssa.Type:
+			for _, tt := range []types.Type{m.Type(), types.NewPointer(m.Type())} {
+				ms := pkg.Prog.MethodSets.MethodSet(tt)
+				for i := 0; i < ms.Len(); i++ {
+					if g := pkg.Prog.MethodValue(ms.At(i)); g != nil && g.Pkg == pkg && g.Synthetic == "" {
+						visit(g)
+					}
+				}
+			}
+		}
+	}
+	boundSites[fn] = sites
+	return sites
+}
+
 func freeVarBinding(fv *ssa.FreeVar) ssa.Value {
 	fn := fv.Parent()
 	par := fn.Parent()
 	if par == nil {
+		// the receiver captured by a bound-method wrapper
+		if strings.HasSuffix(fn.Name(), "$bound") {
+			if sites := boundWrapperSites(fn); len(sites) == 1 && len(sites[0].Bindings) == 1 {
+				return sites[0].Bindings[0]
+			}
+		}
 		return nil
 	}
 	idx := -1
@@ -1255,6 +1318,14 @@ func (c *seeCtx) liveStores(al *ssa.Alloc, stores []placeStore, at ssa.Instructi
 				for f := range frames {
 					if outermost(f) == outermost(g) {
 						related = true
+					}
+					// a bound-method value created in g runs after g's stores
+					if strings.HasSuffix(f.Name(), "$bound") {
+						for _, site := range boundWrapperSites(f) {
+							if outermost(site.Parent()) == outermost(g) {
+								related = true
+							}
+						}
 					}
 				}
 				if called || related {
